@@ -91,6 +91,10 @@ class ContractMixin:
             return v
         if is_obj(kind) and is_obj(v.kind):
             return v
+        if is_list(kind) and is_obj(v.kind) and self.field_kind(v.kind.target.cls, "individuals") is not None:
+            # a Population is iterable: iterating it iterates its `individuals` list (Population.__iter__)
+            self.note_assumption("Population.__iter__ returns iter(self.individuals): a Population passed as an iterable is its individuals list")
+            return self.fget(st, v, "individuals", self.field_kind(v.kind.target.cls, "individuals"))
         if is_dict(kind) and is_dict(v.kind):
             if v.kind.target.k is None:
                 v.kind.target.k, v.kind.target.v = kind.target.k, kind.target.v
